@@ -57,7 +57,7 @@ UNITS = [
       bound="order 3, finite entries, runs whose computed off-diagonal factor entries are finite"),
     F("ldl_solve", SOLVE("ldl") + ["a_real_ldl_D", "a_real_ldl_sgndet"], cbmc=["--slice-formula"], key=["only the addressed column", "factor matrix unchanged", "ldl_sgndet"]),
     F("llt_solve", SOLVE("llt"), cbmc=["--slice-formula"], key=["only the addressed column", "factor matrix unchanged"]),
-    F("inv_agree", ["a_real_plu_inv_", "a_real_ldl_inv_", "a_real_llt_inv_"], solver="cvc5", only=["agree: element for element"], no_canary=True, min_obl=3,
+    F("inv_agree", ["a_real_plu_inv_", "a_real_ldl_inv_", "a_real_llt_inv_"], solver="cvc5", only=["agree: element for element"], no_canary=True, min_obl=3, timeout=600,
       key=["plu_inv and plu_inv_ agree", "ldl_inv and ldl_inv_ agree", "llt_inv and llt_inv_ agree"], bound="orders 1..3, integer-valued factor entries (any int)"),
     F("inv_agree_mem", ["a_real_plu_inv_", "a_real_ldl_inv_", "a_real_llt_inv_"], entry="inv_agree", only=[NOAGREE], cbmc=["--slice-formula"], bound="orders 1..3, integer-valued factor entries (any int)"),
     F("singular", ["a_real_plu", "a_real_ldl", "a_real_llt"], key=["zero pivot column at any step", "vanishing pivot at any step", "non-positive pivot at any step"], cost=40,
@@ -65,13 +65,15 @@ UNITS = [
     F("duplicate_rows", ["a_real_plu"], solver="cvc5", key=["duplicated rows"], bound="order 2, finite entries"),
 ]
 
-# ---- thorough tier: orders up to 5 ----
+# ---- thorough tier: orders up to 5; up to 4 for the units whose cost explodes (plu, singular at order 5: no answer in 30 min) ----
+HEAVY = ("plu", "singular", "plu_perm", "ldl")
 for u in list(UNITS):
     if u["name"].endswith(("_strong2", "_strong3", "_strong3f")) or u["name"] == "duplicate_rows":
         continue
+    d = 4 if u["name"] in HEAVY else 5
     t = dict(u)
     name = t.pop("name"); t.pop("harness"); entry = t.pop("entry"); fns = t.pop("functions")
     t.pop("replay", None); t.pop("level", None)
-    t.update(tiers=("thorough",), defines=list(u.get("defines") or []) + ["MAXD=5"], unwind=27, timeout=1800, cost=100,
-             cbmc=list(u.get("cbmc") or []) + ["--object-bits", "12"], bound=u["bound"].replace("1..3", "1..5"))
-    UNITS.append(F(name + "_d5", fns, entry=entry[2:], **t))
+    t.update(tiers=("thorough",), defines=list(u.get("defines") or []) + ["MAXD=%d" % d], unwind=d * d + 2, timeout=1800, cost=100,
+             cbmc=list(u.get("cbmc") or []) + ["--object-bits", "12"], bound=u["bound"].replace("1..3", "1..%d" % d))
+    UNITS.append(F("%s_d%d" % (name, d), fns, entry=entry[2:], **t))
